@@ -231,6 +231,9 @@ static void cmd_lat(const char *tag, int k, int bp)
         printf("LAT end %s\n", tag);
         return;
     }
+    /* keep the first object alive so that a cache miss shows up as "not the same object" rather than as a
+     * use of the freed lattice */
+    lattice_retain(dag);
     dag2 = decoder_lattice(dec);
     index_lattice(dag, &x);
     printf("G nframes=%d api_nframes=%d nnodes=%d nlinks=%d start=%d end=%d same=%d n_nodes_field=%d final_ascr=%d silwid=%d\n",
@@ -354,6 +357,7 @@ static void cmd_lat(const char *tag, int k, int bp)
         printf("S same_after=%d\n", dag == dag2 ? 1 : 0);
     }
     free(x.nodes); free(x.links);
+    lattice_free(dag);
     printf("LAT end %s\n", tag);
 }
 
